@@ -347,14 +347,17 @@ func TestC14(t *testing.T) {
 		reject bool
 		leaf   string // which names the leaf covers: both, public-only, secret-only, neither
 		noSNI  bool   // RemoveSNIExtension: no server_name extension in the outer hello
+		hrr    bool   // the server first asks for another key share (HelloRetryRequest)
 	}
 	var ejobs []ejob
 	for _, tg := range echTargets {
 		for _, rej := range []bool{false, true} {
 			for _, l := range []string{"both", "public-only", "secret-only", "neither"} {
-				ejobs = append(ejobs, ejob{tg, rej, l, false})
-				if tg.ID.Client != tls.HelloGolang.Client && tg.Spec == nil {
-					ejobs = append(ejobs, ejob{tg, rej, l, true})
+				for _, hrr := range []bool{false, true} {
+					ejobs = append(ejobs, ejob{tg, rej, l, false, hrr})
+					if tg.ID.Client != tls.HelloGolang.Client && tg.Spec == nil {
+						ejobs = append(ejobs, ejob{tg, rej, l, true, hrr})
+					}
 				}
 			}
 		}
@@ -388,6 +391,15 @@ func TestC14(t *testing.T) {
 		if j.noSNI {
 			tg.Pre = func(u *tls.UConn) error { return u.RemoveSNIExtension() }
 		}
+		if j.hrr {
+			g := tls.CurveP384
+			if probe, err := j.t.Probe("example.test"); err == nil {
+				if pg := hrrGroupFor(probe); pg != 0 {
+					g = pg
+				}
+			}
+			scfg.CurvePreferences = []tls.CurveID{g}
+		}
 		h := RunCase(tg, GridCase{Server: scfg}, secret, func(c *tls.Config) { c.EncryptedClientHelloConfigList = peer.ECHConfigList(key) }, peer.Opts{})
 		got := classify(h.ClientErr)
 		verifyName := secret
@@ -407,10 +419,14 @@ func TestC14(t *testing.T) {
 			r.Violation(sig, fmt.Sprintf("%s: ECH %s, leaf valid for %s: client result %q (%v), expected %q (verification name %q)", j.t.Name, sig["ech"], j.leaf, got, h.ClientErr, want, verifyName), rep)
 		}
 		r.Count("ech_cells", 1)
-		r.Case(fmt.Sprintf("ech|%s|%v|%s|nosni=%v", j.t.Name, j.reject, j.leaf, j.noSNI), true)
+		if j.hrr && sawHRR(h.S2C) {
+			r.Count("ech_cells_after_hello_retry_request", 1)
+		}
+		r.Case(fmt.Sprintf("ech|%s|%v|%s|nosni=%v|hrr=%v", j.t.Name, j.reject, j.leaf, j.noSNI, j.hrr), true)
 	})
 	r.Floor("expected_accept", 200)
 	r.Floor("expected_reject", 400)
 	r.Floor("resumed_connections", 30)
 	r.Floor("ech_cells", 40)
+	r.Floor("ech_cells_after_hello_retry_request", 20)
 }
